@@ -74,13 +74,13 @@ func (s *sessionMetadatasState) Create(id string, clientID string, connectedAt i
 		Peer:        s.peer,
 		LastAdded:   clock(),
 	}
-	err := s.set(session)
-	if err != nil {
-		return err
-	}
 	buf, err := proto.Marshal(&api.StateBroadcastEvent{
 		SessionMetadatas: []*api.SessionMetadatas{&session},
 	})
+	if err != nil {
+		return err
+	}
+	err = s.set(session)
 	if err != nil {
 		return err
 	}
@@ -105,13 +105,13 @@ func (s *sessionMetadatasState) Delete(id string) error {
 		return nil
 	}
 	session.LastDeleted = clock()
-	err := s.set(session)
-	if err != nil {
-		return err
-	}
 	buf, err := proto.Marshal(&api.StateBroadcastEvent{
 		SessionMetadatas: []*api.SessionMetadatas{&session},
 	})
+	if err != nil {
+		return err
+	}
+	err = s.set(session)
 	if err != nil {
 		return err
 	}
@@ -186,12 +186,14 @@ func (s *sessionMetadatasState) DeletePeer(peer uint64) error {
 		session := session
 		session.LastDeleted = clock()
 		event.SessionMetadatas = append(event.SessionMetadatas, &session)
-		s.set(session)
 	}
 
 	buf, err := proto.Marshal(event)
 	if err != nil {
 		return err
+	}
+	for _, session := range event.SessionMetadatas {
+		s.set(*session)
 	}
 	s.bcast.QueueBroadcast(simpleBroadcast(buf))
 	return nil
